@@ -162,7 +162,7 @@ def gen(rng, tier):
                 ncomp += 1
             elif x < 0.75:
                 r2 = rng.randrange(nreg)
-                wb = rng.choice([0, 1]); mode = rng.choice([0, 1])
+                wb = rng.choice([0, 1]); mode = rng.choice([0, 1, 0, 1, 3, 8, 24])   # >= 2: bytes behind a header of that size
                 ops.append([12, r, r2, wb, mode]); allvals[r2] = list(allvals[r]); ks[r2] = ks[r]
                 tags.add('serde-buffer' if wb else 'serde')
             elif x < 0.8:
@@ -340,11 +340,19 @@ def oracle(case, irecs, mrecs):
             if q == 1.0 and x != g[2]:
                 fail('quantile_1', 'quantile(1) = %r != max %r' % (x, g[2]), i)
         s = sorted(lst, key=lambda t: t[0])
+        seen_sig = set()
         for a, b in zip(s, s[1:]):
             if math.isnan(a[1]) or math.isnan(b[1]): continue
             if a[1] > b[1]:
-                fail('quantile_not_monotone', 'quantile(%r) = %r > quantile(%r) = %r' % (a[0], a[1], b[0], b[1]), max(a[2], b[2]))
-                break
+                # a decrease of a few units in the last place of the data's magnitude is the rounding of the interpolation
+                # (x1*w1 + x2*w2)/(w1 + w2) between two centroids whose means are a few ulps apart: own signature, so that it
+                # cannot hide the gross defect (swapped interpolation weights) that decreases by a fraction of the centroid gap
+                scale = max(abs(g[1]), abs(g[2]))
+                tiny = (a[1] - b[1]) <= 4 * scale * 2.0 ** -52
+                sig = 'quantile_monotone_rounding' if tiny else 'quantile_not_monotone'
+                if sig not in seen_sig:
+                    seen_sig.add(sig)
+                    fail(sig, 'quantile(%r) = %r > quantile(%r) = %r' % (a[0], a[1], b[0], b[1]), max(a[2], b[2]))
     return fails
 
 FAMILIES = [dict(name='tdigest', harness='drv_tdigest.cpp', extract='Extract_tdigest.v', model='model_tdigest',
